@@ -351,6 +351,14 @@ def extract(repo):
     if not left_sees:
         raise ValueError("EXPRop2__out: the left operand is no longer handed the parent operator (model assumes it is)")
 
+    # ---- the paren argument EXPRop1_out hands to the operand of NOT / unary minus ("1": always parenthesised when it is an
+    # operator expression; anything else, e.g. a function of the operand, is recorded as the text)
+    op1b = _strip_c_comments(_body(pe, r"void\s+EXPRop1_out\s*\([^)]*\)\s*\{"))
+    m1c = re.findall(r"EXPR_out\(\s*eo->op1\s*,\s*(.+?)\s*\)\s*;", op1b)
+    if len(m1c) != 1:
+        raise ValueError(f"EXPRop1_out: operand call not recognised ({m1c})")
+    unary_operand_paren = m1c[0]
+
     # ---- spellings of the constants PI and e at both printers (EXPR__out: wrap, EXPRstring: strcpy into the buffer)
     const_sp = []
     for cname in ("PI", "E"):
@@ -417,6 +425,8 @@ def extract(repo):
     L.append(f"def localsWidthIsNameLength : Bool := {'true' if locals_plain else 'false'}")
     L.append("/-- `EXPRop2__out` hands its operator to the RIGHT operand as previous_op (so `a + (b + c)` loses its parentheses) -/")
     L.append(f"def rightOperandSeesParent : Bool := {'true' if right_sees else 'false'}")
+    L.append("/-- the `paren` argument `EXPRop1_out` hands to the operand of NOT / unary minus (the model prints that operand with `paren = true`) -/")
+    L.append(f"def unaryOperandParen : String := {_lstr(unary_operand_paren)}")
     L.append("/-- what exppp writes for the constants: (constant, printer: wrap = EXPR__out / buffer = EXPRstring, text) -/")
     L.append("def constSpellings : List (String × String × String) := " + _llist([f"({_lstr(a)}, {_lstr(b)}, {_lstr(c)})" for a, b, c in const_sp]))
     L.append(f"def piText : String := {_lstr([c for a, b, c in const_sp if a == 'PI' and b == 'wrap'][0])}")
